@@ -252,6 +252,7 @@ void cmd_life(char **a, int na);
 void cmd_encapi(char **a, int na);
 void cmd_xform(char **a, int na);
 void cmd_lint(char **a, int na);
+void cmd_canon2(char **a, int na);
 
 static void on_alarm(int sig) { (void)sig; static const char m[] = "\nWATCHDOG\n"; if(write(2, m, sizeof m - 1)) {} _exit(97); }
 
@@ -281,6 +282,7 @@ int main(int ac, char **av) {
         else if(!strcmp(a[0], "encapi")) cmd_encapi(a, na);
         else if(!strcmp(a[0], "xform")) cmd_xform(a, na);
         else if(!strcmp(a[0], "lint")) cmd_lint(a, na);
+        else if(!strcmp(a[0], "canon2")) cmd_canon2(a, na);
         else printf("ERR unknown command %s\n", a[0]);
         alarm(0);
         fflush(stdout);
